@@ -159,7 +159,7 @@ func runCrashStream(seed int64, n int, out, tier string) *RunReport {
 					f.failf("cannot reopen after a crash at call %d of %s: %v", k, target.Kind, err)
 				} else {
 					sg := Tstr(got)
-					cs.Add(fmt.Sprintf("(HCrash %s %s %d %s)", baseTerm, tk.term(), kk, sg), hi == 0 && len(cs.Sample) < 4)
+					cs.Add(fmt.Sprintf("(HCrash %s %s %s %s)", baseTerm, tk.term(), gZ(kk), sg), hi == 0 && len(cs.Sample) < 4)
 					switch {
 					case sg == Tstr(before):
 						distinct[target.Kind+"/absent"] = true
